@@ -111,9 +111,47 @@ def draw_faults(m, meta):
                 if problems:
                     out.append({"frames": frames, "stream": "buffered until flush()" if buffered else "unbuffered", "KeyboardInterrupt_at_stream_op": k,
                                 "operation": "flush()" if st.log[k - 1] is None else "write(%r)" % st.log[k - 1][:20], "problems": problems})
+        # Ctrl-C surfacing from the tcsetattr call that switches echo off: before it took effect, or just after
+        import term_image.renderable._renderable as RR2
+        real_set = termios.tcsetattr
+        for frames in (3, 1):
+            for after in (False, True):
+                r, R = _renderable(frames)
+                st = Stream(slave)
+                before = termios.tcgetattr(slave)
+                calls = [0]
+
+                def fake_set(fd, when, attr, after=after, calls=calls):
+                    calls[0] += 1
+                    if calls[0] == 1 and not after:
+                        raise KeyboardInterrupt
+                    real_set(fd, when, attr)
+                    if calls[0] == 1:
+                        raise KeyboardInterrupt
+                RR2.termios.tcsetattr = fake_set
+                old = sys.stdout
+                sys.stdout = st
+                raised = None
+                try:
+                    try:
+                        r.draw(loops=1, padding=ExactPadding(), check_size=False, echo_input=False)
+                    except KeyboardInterrupt:
+                        raised = "KeyboardInterrupt"
+                finally:
+                    sys.stdout = old
+                    RR2.termios.tcsetattr = real_set
+                problems = []
+                if termios.tcgetattr(slave) != before:
+                    problems.append("terminal attributes not restored")
+                    real_set(slave, termios.TCSANOW, before)
+                if frames > 1 and raised:
+                    problems.append("animated draw propagated KeyboardInterrupt")
+                if problems:
+                    out.append({"frames": frames, "KeyboardInterrupt surfacing from the first tcsetattr": "after it took effect" if after else "before it took effect",
+                                "problems": problems})
     finally:
         os.close(master); os.close(slave)
-    return {"reproduced": bool(out), "input": "Renderable.draw(loops=1) with KeyboardInterrupt raised by the k-th stream operation", "observed": out[:6]}
+    return {"reproduced": bool(out), "input": "Renderable.draw(loops=1) with KeyboardInterrupt raised by the k-th stream operation / by the first tcsetattr", "observed": out[:6]}
 
 
 def draw_faults_pre_try(m, meta):
